@@ -298,7 +298,7 @@ COUNT_ASSUME = [
 REGISTRY = {
     "C01": Prop(
         targets=["PsProps.C01"],
-        theorems=[("PsProps.C01", "Ps.Props.C01_forward"), ("PsProps.C01", "Ps.Props.C01_sequence_exact"),
+        theorems=[("PsProps.C01", "Ps.Props.C01_model_sources"), ("PsProps.C01", "Ps.Props.C01_forward"), ("PsProps.C01", "Ps.Props.C01_sequence_exact"),
                   ("PsProps.C01", "Ps.Props.C01_blocks_nonempty"), ("PsProps.C01", "Ps.Props.C01_crossoff_tables"),
                   ("PsProps.C01", "Ps.Props.C01_crossoff_step"), ("PsProps.C01", "Ps.Props.C01_crossoff_walk_exact"),
                   ("PsProps.C01", "Ps.Props.C01_first_multiple"), ("PsProps.C01", "Ps.Props.C01_presieve_exact"),
@@ -316,14 +316,14 @@ REGISTRY = {
                     "termination of generate_next_primes is the well-founded recursion of genNextFresh"),
     "C02": Prop(
         targets=["PsProps.C02"],
-        theorems=[("PsProps.C02", "Ps.Props.C02_backward"), ("PsProps.C02", "Ps.Props.C02_sequence_exact")],
+        theorems=[("PsProps.C02", "Ps.Props.C02_model_sources"), ("PsProps.C02", "Ps.Props.C02_backward"), ("PsProps.C02", "Ps.Props.C02_sequence_exact")],
         tie=iter_tie, witness=iter_witness, assumptions=ITER_ASSUME,
         undischarged=["IGen ~ PrimeGenerator (sieve chain, DESIGN section 9 Tier B)"],
         explanation="backward iteration = prevSeq for every start, hint and float oracle; termination of the "
                     "do/while of generate_prev_primes is the well-founded recursion of genPrevLoop"),
     "C03": Prop(
         targets=["PsProps.C03"],
-        theorems=[("PsProps.C03", "Ps.Props.C03_refines"), ("PsProps.C03", "Ps.Props.C03_hint_independent"),
+        theorems=[("PsProps.C03", "Ps.Props.C03_model_sources"), ("PsProps.C03", "Ps.Props.C03_refines"), ("PsProps.C03", "Ps.Props.C03_hint_independent"),
                   ("PsProps.C03", "Ps.Props.C03_reset_like_fresh"),
                   ("PsProps.C03", "Ps.Props.C03_moved_from_like_fresh")],
         tie=iter_tie, witness=iter_witness, assumptions=ITER_ASSUME,
@@ -331,7 +331,7 @@ REGISTRY = {
         explanation="simulation between the iterator model and the abstract cursor for every history"),
     "C04": Prop(
         targets=["PsProps.C04"],
-        theorems=[("PsProps.C04", "Ps.Props.C04_count_single"), ("PsProps.C04", "Ps.Props.C04_count_parallel"),
+        theorems=[("PsProps.C04", "Ps.Props.C04_model_sources"), ("PsProps.C04", "Ps.Props.C04_count_single"), ("PsProps.C04", "Ps.Props.C04_count_parallel"),
                   ("PsProps.C04", "Ps.Props.C04_empty"), ("PsProps.C04", "Ps.Props.C04_additive"),
                   ("PsProps.C04", "Ps.Props.C04_agrees_with_enumeration")],
         tie=combine(("count", count_tie), ("segment", segment_tie), ("cross", streams.CROSS.tie)),
@@ -341,7 +341,7 @@ REGISTRY = {
                     "[start, stop], for every start, stop, thread count and piece length"),
     "C05": Prop(
         targets=["PsProps.C05"],
-        theorems=[("PsProps.C05", "Ps.Props.C05_tuplets_single"), ("PsProps.C05", "Ps.Props.C05_tuplets_parallel"),
+        theorems=[("PsProps.C05", "Ps.Props.C05_model_sources"), ("PsProps.C05", "Ps.Props.C05_tuplets_single"), ("PsProps.C05", "Ps.Props.C05_tuplets_parallel"),
                   ("PsProps.C05", "Ps.Props.C05_masks_exhaustive"), ("PsProps.C05", "Ps.Props.C05_small_rows")],
         tie=combine(("count", count_tie)), witness=combine_witness(count_witness), assumptions=COUNT_ASSUME,
         undischarged=["ideal sieve ~ Erat cross-off (sieve chain, DESIGN section 9 Tier B)"],
@@ -349,7 +349,7 @@ REGISTRY = {
                     "checked against the pattern definition for all 256 byte values by the kernel"),
     "C15": Prop(
         targets=["PsProps.C15"],
-        theorems=[("PsProps.C15", "Ps.Props.C15_print_primes"), ("PsProps.C15", "Ps.Props.C15_lines_eq_count"),
+        theorems=[("PsProps.C15", "Ps.Props.C15_model_sources"), ("PsProps.C15", "Ps.Props.C15_print_primes"), ("PsProps.C15", "Ps.Props.C15_lines_eq_count"),
                   ("PsProps.C15", "Ps.Props.C15_print_tuplets_from7"), ("PsProps.C15", "Ps.Props.C15_tuplet_lines_eq_count"),
                   ("PsProps.C15", "Ps.Props.C15_small_strings")],
         tie=combine(("print", streams.PRINT.tie)), witness=combine_witness(streams.PRINT.witness),
@@ -360,7 +360,7 @@ REGISTRY = {
                     "primes / constellations of [start, stop], ascending"),
     "C06": Prop(
         targets=["PsProps.C06"],
-        theorems=[("PsProps.C06", "Ps.Props.C06_store_primes"), ("PsProps.C06", "Ps.Props.C06_no_truncation"),
+        theorems=[("PsProps.C06", "Ps.Props.C06_model_sources"), ("PsProps.C06", "Ps.Props.C06_store_primes"), ("PsProps.C06", "Ps.Props.C06_no_truncation"),
                   ("PsProps.C06", "Ps.Props.C06_next_block"), ("PsProps.C06", "Ps.Props.C06_storeMaxPrime"),
                   ("PsProps.C06", "Ps.Props.C06_store_n_primes")],
         tie=combine(("store", streams.STORE.tie)), witness=combine_witness(streams.STORE.witness),
@@ -371,7 +371,7 @@ REGISTRY = {
                     "throws with an exact prefix when the n-th does not fit; both block loops terminate"),
     "C07": Prop(
         targets=["PsProps.C07"],
-        theorems=[("PsProps.C07", "Ps.Props.C07_extreme_n_rejected"), ("PsProps.C07", "Ps.Props.C07_negation_in_range"),
+        theorems=[("PsProps.C07", "Ps.Props.C07_model_sources"), ("PsProps.C07", "Ps.Props.C07_extreme_n_rejected"), ("PsProps.C07", "Ps.Props.C07_negation_in_range"),
                   ("PsProps.C07", "Ps.Props.C07_zero_maps_to_first"), ("PsProps.C07", "Ps.Props.C07_negative_needs_room"),
                   ("PsProps.C07", "Ps.Props.C07_nth_value"), ("PsProps.C07", "Ps.Props.C07_count_hypothesis")],
         tie=combine(("nth", streams.NTH.tie)), witness=combine_witness(streams.NTH.witness),
@@ -384,7 +384,7 @@ REGISTRY = {
                     "argument validation (|n| > pi(2^64) incl. INT64_MIN rejected before negation)"),
     "C08": Prop(
         targets=["PsProps.C08"],
-        theorems=[("PsProps.C08", "Ps.Props.C08_setSieveSize_clamped"), ("PsProps.C08", "Ps.Props.C08_setNumThreads_clamped"),
+        theorems=[("PsProps.C08", "Ps.Props.C08_model_sources"), ("PsProps.C08", "Ps.Props.C08_setSieveSize_clamped"), ("PsProps.C08", "Ps.Props.C08_setNumThreads_clamped"),
                   ("PsProps.C08", "Ps.Props.C08_getSieveSize_range"), ("PsProps.C08", "Ps.Props.C08_getSieveSize_user"),
                   ("PsProps.C08", "Ps.Props.C08_l1_range"), ("PsProps.C08", "Ps.Props.C08_sieveSize_mod8_or_pow2"),
                   ("PsProps.C08", "Ps.Props.C08_counts_independent_of_threads"),
@@ -407,7 +407,7 @@ REGISTRY = {
                     "lengths, hints and float values"),
     "C11": Prop(
         targets=["PsProps.C11"],
-        theorems=[("PsProps.C11", "Ps.Props.C11_error_sticky"), ("PsProps.C11", "Ps.Props.C11_error_state"),
+        theorems=[("PsProps.C11", "Ps.Props.C11_model_sources"), ("PsProps.C11", "Ps.Props.C11_error_sticky"), ("PsProps.C11", "Ps.Props.C11_error_state"),
                   ("PsProps.C11", "Ps.Props.C11_next_same_as_cpp"), ("PsProps.C11", "Ps.Props.C11_prev_same_as_cpp"),
                   ("PsProps.C11", "Ps.Props.C11_jump_inclusive_skipto_exclusive"),
                   ("PsProps.C11", "Ps.Props.C11_wrappers_catch"), ("PsProps.C11", "Ps.Props.C11_wrappers_without_try"),
@@ -433,7 +433,7 @@ REGISTRY = {
                     "operations on two iterators returns per object what it returns alone"),
     "C09": Prop(
         targets=["PsProps.C09"],
-        theorems=[("PsProps.C09", "Ps.Props.C09_piece_exact"), ("PsProps.C09", "Ps.Props.C09_tiling"),
+        theorems=[("PsProps.C09", "Ps.Props.C09_model_sources"), ("PsProps.C09", "Ps.Props.C09_piece_exact"), ("PsProps.C09", "Ps.Props.C09_tiling"),
                   ("PsProps.C09", "Ps.Props.C09_threadDistance_shape"),
                   ("PsProps.C09", "Ps.Props.C09_primes_additive"), ("PsProps.C09", "Ps.Props.C09_tuplets_additive"),
                   ("PsProps.C09", "Ps.Props.C09_no_split"), ("PsProps.C09", "Ps.Props.C09_schedule_independent")],
@@ -443,7 +443,7 @@ REGISTRY = {
                     "one, per-piece counts add up to the interval's count, for every assignment of pieces to workers"),
     "C10": Prop(
         targets=["PsProps.C10"],
-        theorems=[("PsProps.C10", "Ps.Props.C10_maxPrime64_prime"), ("PsProps.C10", "Ps.Props.C10_no_prime_above"),
+        theorems=[("PsProps.C10", "Ps.Props.C10_model_sources"), ("PsProps.C10", "Ps.Props.C10_maxPrime64_prime"), ("PsProps.C10", "Ps.Props.C10_no_prime_above"),
                   ("PsProps.C10", "Ps.Props.C10_forward_values_le_max"), ("PsProps.C10", "Ps.Props.C10_iterator_top"),
                   ("PsProps.C10", "Ps.Props.C10_checkedAdd"), ("PsProps.C10", "Ps.Props.C10_checkedSub")],
         tie=combine(("iter", iter_tie), ("count", count_tie), ("segment", segment_tie), ("wheel", streams.WHEEL.tie)),
@@ -595,7 +595,7 @@ SAN_ASSUME = ["every correspondence stream of this framework runs on a build wit
 REGISTRY.update({
     "C13": Prop(
         targets=["PsProps.C13"],
-        theorems=[("PsProps.C13", "Ps.Props.C13_iterator_fault_safe"), ("PsProps.C13", "Ps.Props.C13_fault_only_on_refill"),
+        theorems=[("PsProps.C13", "Ps.Props.C13_model_sources"), ("PsProps.C13", "Ps.Props.C13_iterator_fault_safe"), ("PsProps.C13", "Ps.Props.C13_fault_only_on_refill"),
                   ("PsProps.C13", "Ps.Props.C13_state_after_failure"), ("PsProps.C13", "Ps.Props.C13_c_iterator_failure")],
         tie=combine(("fiter", fiter_tie), ("wl", wl_tie)), witness=combine_witness(wl_witness),
         level="proof",
@@ -650,7 +650,7 @@ REGISTRY.update({
                     "operator table, option table, dispatch switches, guards and value types regenerated from the source"),
     "C17": Prop(
         targets=["PsProps.C17"],
-        theorems=[("PsProps.C17", "Ps.Props.C17_prev_chunk_bounded"), ("PsProps.C17", "Ps.Props.C17_next_dist_range"),
+        theorems=[("PsProps.C17", "Ps.Props.C17_model_sources"), ("PsProps.C17", "Ps.Props.C17_prev_chunk_bounded"), ("PsProps.C17", "Ps.Props.C17_next_dist_range"),
                   ("PsProps.C17", "Ps.Props.C17_reset_releases"), ("PsProps.C17", "Ps.Props.C17_prev_keeps_no_generator")],
         tie=combine(("mem", mem_tie)), witness=combine_witness(mem_witness),
         assumptions=["heap bytes are the sum of live operator-new allocations measured by psv_alloc's ledger (malloc inside "
